@@ -11,6 +11,27 @@ def plan(tier, seed, kf_ids):
     p["jobs"].append(Job(name, "tr_total_pow!(%s, %d, I9F23, I9F23, i32, %s, %s, %s);" % (name, T.budget(a) + 2, T.family(a), T.family(a), T.budget_expr(a)),
                          "pow::<I9F23,I9F23>(x, y) for x and y in the operand family (every binade +-255 ulps, max - t, min + t): within the "
                          "iteration budget", timeout=3600, inst="pow I9F23", bounds="family x family"))
+    # single operands (constants folded by the solver's front end, seconds each): witnesses on the wide types and at operands
+    # where an iterate-until-converged loop would cycle (n^2 +- 2n ulp for Newton's square root)
+    wit = [("sqrt", "I9F23", "(4i32 << 23) + 4"), ("sqrt", "I9F23", "(4i32 << 23) - 4"), ("sqrt", "I9F23", "(9i32 << 23) + 6"), ("sqrt", "I9F23", "i32::MAX"),
+           ("sqrt", "I9F23", "(1i32 << 23) + 2"), ("sqrt", "I32F32", "(4i64 << 32) + 4"), ("sqrt", "I32F32", "(9i64 << 32) - 6"), ("sqrt", "I32F32", "i64::MAX"),
+           ("sqrt", "I16F48", "(25i64 << 48) + 10"), ("sqrt", "I64F64", "(9i128 << 64) + 6"), ("sqrt", "I64F64", "i128::MAX"), ("sqrt", "U32F32", "u64::MAX"),
+           ("sqrt", "U64F64", "(9u128 << 64) + 6"),
+           ("log2", "I32F32", "i64::MAX"), ("log2", "I64F64", "i128::MAX"), ("log2", "I32F32", "3i64 << 20"), ("log2", "I64F64", "5i128 << 40"),
+           ("ln", "I32F32", "i64::MAX"), ("exp", "I32F32", "(20i64 << 32) + 12345"), ("exp", "I64F64", "-(40i128 << 64)"), ("exp", "I16F48", "9i64 << 48")]
+    for i, (fun, al, expr) in enumerate(wit):
+        j = T.total1("c17", fun, al, al, expr, "w%d" % i, T.budget(al) + 2, T.budget_expr(al), timeout=600,
+                     bounds="ONE operand (%s): a witness, not a universally quantified obligation" % expr)
+        j.concrete = "vec![]"
+        j.prio = 1
+        p["jobs"].append(j)
+    for i, (fun, al, expr) in enumerate((("sin", "I64F64", "i128::MAX"), ("sin", "I64F64", "i128::MIN + 1"), ("cos", "I16F48", "i64::MAX - (3i64 << 48)"),
+                                         ("sin", "I40F88", "i128::MAX"), ("tan", "I32F32", "(99i64 << 32) + 777"))):
+        j = T.trig("c17", fun, al, expr, "w%d" % i, T.budget(al) + 2, T.budget_expr(al), 0, timeout=600)
+        j.concrete = "vec![]"
+        j.prio = 1
+        j.bounds = "ONE operand (%s): a witness, not a universally quantified obligation" % expr
+        p["jobs"].append(j)
     p["bounds"] = ("iteration budget enforced by the tick() hook at the top of every loop body: the solver proves the TIGHTER "
                    "budget W+32 for every operand (a call that needs more iterations fails the 'iteration budget exceeded' "
                    "check; unwinding = W+34 with unwinding assertions on); a counterexample is replayed natively with the "
